@@ -106,6 +106,13 @@ func (l *Lab) AddPlain(name string, hostports ...string) {
 	l.serve(name, "http", ln, hostports)
 }
 
+// Passthrough lets addr ("localhost:1234") be dialled for real (loopback addresses of the node under test only).
+func (l *Lab) Passthrough(addr string) {
+	l.mu.Lock()
+	l.routes[addr] = addr
+	l.mu.Unlock()
+}
+
 // DialContext routes by the dialled name; unknown names are refused (and recorded).
 func (l *Lab) DialContext(ctx context.Context, network, addr string) (net.Conn, error) {
 	l.mu.Lock()
